@@ -285,7 +285,8 @@ def shrink(machine, case: dict, fp: str, budget_s: float = 40.0) -> dict:
 def write_replay(prop: str, tier: str, case: dict, viol: dict, digest: str) -> str:
     d = os.path.join(REPLAY_DIR, prop)
     os.makedirs(d, exist_ok=True)
-    name = f"{case.get('seed', 0):016x}-{viol['clause'].replace(':', '_').replace('/', '_')}.json"
+    clause = ''.join(ch if ch.isalnum() or ch in '-_' else '_' for ch in viol['clause'])
+    name = f"{case.get('seed', 0) or 0:016x}-{clause}-{H(viol['fp']) & 0xffffff:06x}.json"
     path = os.path.join(d, name)
     rec = {
         'property': prop, 'tier': tier, 'seed': case.get('seed'),
